@@ -157,12 +157,66 @@ let do_stream (op : string) (a : string list) : string =
       String.concat "," (List.map (fun c -> string_of_int (List.length c)) (chunks (nat_of_int (int_of_string k)) l))
   | _ -> "?stream-args"
 
+(* ---------- C04 / C05 recompression tables ---------- *)
+let comp_of = function "U" -> CU | "G" -> CG | "B" -> CB | s -> failwith ("comp " ^ s)
+let name_of = function CU -> "U" | CG -> "G" | CB -> "B"
+let gzc = framed (n_of_int 1) and brc = framed (n_of_int 2)
+let do_recomp (op : string) (a : string list) : string =
+  match op, a with
+  | "recomp", [s; d; f] ->
+      let steps = recompressor (comp_of s) (comp_of d) (f = "1") in
+      if steps = [] then "-" else
+      String.concat "," (List.map (function UnGzip -> "ungzip" | UnBrotli -> "unbrotli" | DoGzip -> "gzip" | DoBrotli -> "brotli") steps)
+  | "optc", [i; bits; g] ->
+      let bits = int_of_string bits in
+      let t = { al_u = bits land 1 <> 0; al_g = bits land 2 <> 0; al_b = bits land 4 <> 0; goal = n_of_string g } in
+      let sample = List.map n_of_int [7; 7; 7; 9] in
+      let stored = compress gzc brc (comp_of i) sample in
+      (match optimize gzc brc stored (comp_of i) t with
+       | None -> "err"
+       | Some (None, _) -> "err"
+       | Some (Some b, c) -> name_of c ^ ":" ^ (if b = stored then "same" else "changed"))
+  | _ -> "?recomp-args"
+
+(* ---------- C05 / C07 http ---------- *)
+let codes (s : string) : n list = List.init (String.length s) (fun i -> n_of_int (Char.code s.[i]))
+let string_of_codes (l : n list) : string = String.concat "" (List.map (fun c -> String.make 1 (Char.chr (int_of_n c))) l)
+let do_http (op : string) (a : string list) : string =
+  match op, a with
+  | "tilepath", [path] ->
+      (match status tile_path_variant (fun _ _ _ -> true) (codes path) with
+       | None -> "dropped" | Some st -> string_of_n st)
+  | "static", [root; target] ->
+      (* known tree below root: index.html file.txt sub/index.html sub/inner.txt ; outside: ../secret.txt ../www-private/secret.txt *)
+      let rootc = components (codes root) in
+      let rootn = List.map string_of_codes (names rootc) in
+      (match served static_guard_variant rootc (request_url (codes target)) with
+       | None -> "none"
+       | Some file ->
+           let file = List.map string_of_codes file in
+           let rec strip r f = match r, f with [], f -> Some f | x :: r', y :: f' when x = y -> strip r' f' | _ -> None in
+           let known rel = List.mem rel ["index.html"; "file.txt"; "sub/index.html"; "sub/inner.txt"] in
+           (match strip rootn file with
+            | Some rest ->
+                let rel = String.concat "/" rest in
+                let rel = if rel = "" then "index.html" else if rel = "sub" then "sub/index.html" else rel in
+                if known rel then "file:" ^ rel else "none"
+            | None ->
+                let parent = List.rev (List.tl (List.rev rootn)) in
+                (match strip parent file with
+                 | Some ["secret.txt"] -> "file:../secret.txt"
+                 | Some ["www-private"; "secret.txt"] -> "file:../www-private/secret.txt"
+                 | _ -> "none")))
+  | _ -> "?http-args"
+
 (* ---------- dispatch ---------- *)
 let dispatch (op : string) (args : string list) : string =
   match op with
   | "cache" -> do_cache args
   | "pipe" -> do_pipe args
   | "acc" | "chunks" -> do_stream op args
+  | "recomp" | "optc" -> do_recomp op args
+  | "tilepath" | "static" -> do_http op args
   | "sysprog" -> (match args with
       | [off; len] -> String.concat "," (List.map (function
           | Seek o -> "seek:" ^ string_of_n o | Read l -> "read:" ^ string_of_n l
